@@ -163,7 +163,7 @@ class Ctx:
         mv = re.search(r"Invariant (\S+) is violated", p.stdout)
         if mv:
             r.violated = mv.group(1)
-        elif "Temporal properties were violated" in p.stdout:
+        elif "Temporal properties were violated" in p.stdout or re.search(r"Temporal property \S+ was violated", p.stdout):
             r.violated = "temporal"
         elif re.search(r"Action property (\S+) is violated", p.stdout):
             r.violated = re.search(r"Action property (\S+) is violated", p.stdout).group(1)
